@@ -1267,3 +1267,142 @@ Proof.
     + assumption.
     + cbv iota. rewrite <- L7. apply (Hexec s3); [apply cext_refl|]. apply EX8. assumption.
 Qed.
+
+Lemma cok_if1 c a : compile_ok c -> compile_ok a -> compile_ok (EIf1 c a).
+Proof.
+  intros IHc IHa f l tail s Hf Ht MI. destruct f as [|f]; [lia|].
+  cbn [cell_of] in *. cbn [cell_size] in Hf. rewrite compile_if2_eq.
+  destruct (IHc f l false s ltac:(lia) Ht MI) as (l1 & s1 & cc & E1 & F1 & S1 & MI1 & X1 & EX1).
+  set (l3 := emit (emit_op l1 OJnt) (VPtr CAFEBEEF)).
+  assert (S3 : same_hdr l l3) by (eapply same_hdr_trans; [exact S1|repeat split]).
+  destruct (IHa f l3 tail s1 ltac:(lia) (top_hdr_same _ _ S3 Ht) MI1) as (l4 & s2 & ca & E4 & F4 & S4 & MI2 & X2 & EX4).
+  destruct (if_layout l l1 l4 cc ca F1 F4) as [L6 F7].
+  set (l6 := emit (emit_op l4 OJmp) (VPtr CAFEBEEF)) in *.
+  set (l7 := bc_patch l6 (bc_len (emit_op l1 OJnt)) (VPtr (bc_len l6))) in *.
+  assert (S7 : same_hdr l l7).
+  { eapply same_hdr_trans; [exact S3|]. eapply same_hdr_trans; [exact S4|]. repeat split. }
+  set (cb := [VOp OMovImmediate; VVoid; VAcc]).
+  set (l8 := emit (emit (emit_op l7 OMovImmediate) VVoid) VAcc).
+  assert (F8 : fwd l8 = fwd l7 ++ cb) by apply fwd_emit3.
+  set (p := len (fwd l)) in *.
+  assert (L7 : len (fwd l7) = bc_len l6).
+  { rewrite F7, L6. lens. fold p. lia. }
+  assert (L3 : len (fwd l3) = p + len cc + 2).
+  { unfold l3. rewrite fwd_emit, fwd_emit_op, F1. lens. fold p. lia. }
+  assert (L8 : bc_len l8 = bc_len l6 + len cb) by (rewrite (bc_len_fwd l8), F8, len_app, L7; reflexivity).
+  exists (bc_patch l8 (bc_len (emit_op l4 OJmp)) (VPtr (bc_len l8))), s2,
+         (cc ++ [VOp OJnt; VPtr (bc_len l6)] ++ ca ++ [VOp OJmp; VPtr (bc_len l8)] ++ cb).
+  unfold bindM at 1. rewrite E1. unfold bindM at 1. fold l3. rewrite E4.
+  split; [reflexivity|]. split.
+  { rewrite (if_final l8 l4 (fwd l ++ cc ++ [VOp OJnt; VPtr (bc_len l6)] ++ ca) cb).
+    - rewrite <- !app_assoc. reflexivity.
+    - rewrite F8, F7, <- !app_assoc. reflexivity.
+    - rewrite bc_len_fwd, fwd_emit_op, F4. lens. rewrite L3. lens. fold p. lia. }
+  split; [eapply same_hdr_trans; [exact S7|repeat split]|].
+  split; [exact MI2|].
+  split; [eapply cext_trans; eassumption|].
+  assert (Hexec : forall s' q code rho r rho', cext s' s2 -> exec_ok s' q code rho r rho' -> exec_ok s2 q code rho r rho').
+  { intros s' q code rho r rho' Xs EX m lp bc Xm. apply EX. eapply cext_trans; eassumption. }
+  intros rho r rho' HR. inversion HR; subst.
+  - apply (exec_if s2 p cc ca cb _ _ rho rc rho1 r rho' false L6 L8).
+    + apply (Hexec s1); [exact X2|]. apply EX1. assumption.
+    + assumption.
+    + cbv iota. rewrite <- L3. apply EX4. assumption.
+  - apply (exec_if s2 p cc ca cb _ _ rho rc rho' (RDatum CVoid) rho' true L6 L8).
+    + apply (Hexec s1); [exact X2|]. apply EX1. assumption.
+    + assumption.
+    + cbv iota. apply exec_movimm. apply vrep_void.
+Qed.
+
+(* ------------------------------------------------------------ application *)
+Definition cells_of (args : list expr) : cell := fold_right CPair CNil (map cell_of args).
+
+Lemma cells_size x r : (cell_size (cell_of x) < cell_size (cells_of (x :: r)))%nat /\
+                       (cell_size (cells_of r) < cell_size (cells_of (x :: r)))%nat.
+Proof. unfold cells_of. cbn [map fold_right cell_size]. lia. Qed.
+
+(* the operand loop: each operand's code followed by PUSH %acc; the values end up in
+   the slots above the initial sp, in order *)
+Definition exec_args (s0 : vm) (p : N) (code : list vcell) (args : list expr) : Prop :=
+  forall rho rs rho', ref_evals rho args rs rho' ->
+  forall m lp bc,
+    cext s0 m -> minv m -> code_in m lp bc -> seg bc p code -> ip m = (lp, p) -> genv_rel rho m ->
+    exists n m' vs, steps n m = Some m' /\ minv m' /\ ip m' = (lp, p + len code) /\ genv_rel rho' m' /\
+      cext m m' /\ sp m' = sp m + len args /\ bp m' = bp m /\ ep m' = ep m /\ out_log m' = out_log m /\
+      (forall j, j <= sp m -> sget m' j = sget m j) /\
+      len vs = len args /\
+      (forall i v, list_get vs i = Some v -> sget m' (sp m + 1 + i) = v) /\
+      Forall2 (fun v r => vrep v r (hp m') (st m')) vs rs.
+
+Lemma list_get_cons_S {A} (x : A) l i : list_get (x :: l) (i + 1) = list_get l i.
+Proof. unfold list_get. replace (N.to_nat (i + 1)) with (S (N.to_nat i)) by lia. reflexivity. Qed.
+
+Lemma args_ok args : Forall compile_ok args ->
+  forall f l n s, (cell_size (cells_of args) < f)%nat -> top_hdr l -> minv s ->
+  exists l' s' code, args_loop (compile_expression f) (cells_of args) l n s = ROk (l', n + len args) s' /\
+    fwd l' = fwd l ++ code /\ same_hdr l l' /\ minv s' /\ cext s s' /\
+    exec_args s' (len (fwd l)) code args.
+Proof.
+  induction 1 as [|x r Hx Hr IH]; intros f l n s Hf Ht MI.
+  - exists l, s, []. cbn [cells_of map fold_right args_loop]. split; [unfold ret; f_equal; f_equal; cbn; lia|].
+    split; [rewrite app_nil_r; reflexivity|]. split; [apply same_hdr_refl|]. split; [exact MI|].
+    split; [apply cext_refl|].
+    intros rho rs rho' HR m lp bc X MIm Hc Hs Hip G. inversion HR; subst.
+    exists 0%nat, m, []. split; [reflexivity|]. split; [exact MIm|].
+    split; [rewrite Hip; f_equal; cbn; lia|]. split; [exact G|]. split; [apply cext_refl|].
+    split; [cbn; lia|]. do 3 (split; [reflexivity|]). split; [auto|]. split; [reflexivity|].
+    split; [intros i v Hi; unfold list_get in Hi; destruct (N.to_nat i); discriminate|constructor].
+  - destruct (cells_size x r) as [Sx Sr].
+    change (cells_of (x :: r)) with (CPair (cell_of x) (cells_of r)) in *. cbn [args_loop].
+    destruct (Hx f l false s ltac:(lia) Ht MI) as (l1 & s1 & cx & E1 & F1 & S1 & MI1 & X1 & EX1).
+    assert (S1' : same_hdr l (emit_op l1 OPushAcc)) by (eapply same_hdr_trans; [exact S1|repeat split]).
+    destruct (IH f (emit_op l1 OPushAcc) (n + 1) s1 ltac:(lia) (top_hdr_same _ _ S1' Ht) MI1)
+      as (l2 & s2 & cr & E2 & F2 & S2 & MI2 & X2 & EX2).
+    exists l2, s2, (cx ++ [VOp OPushAcc] ++ cr).
+    unfold bindM at 1. rewrite E1, E2.
+    split; [f_equal; f_equal; rewrite len_cons; lia|].
+    split; [rewrite F2, fwd_emit_op, F1, <- !app_assoc; reflexivity|].
+    split; [eapply same_hdr_trans; eassumption|]. split; [exact MI2|]. split; [eapply cext_trans; eassumption|].
+    assert (Lp : len (fwd (emit_op l1 OPushAcc)) = len (fwd l) + len cx + 1) by (rewrite fwd_emit_op, F1; lens; lia).
+    rewrite Lp in EX2.
+    intros rho rs rho' HR m lp bc X MIm Hc Hs Hip G. inversion HR; subst.
+    apply seg_app in Hs as [Hsx Hs]. apply seg_app in Hs as [Hsp Hsr]. rewrite len1 in Hsr.
+    match goal with H : ref_eval rho x _ _ |- _ => rename H into HRx end.
+    match goal with H : ref_evals _ r _ _ |- _ => rename H into HRr end.
+    destruct (EX1 _ _ _ HRx m lp bc (cext_trans _ _ _ X2 X) MIm Hc Hsx Hip G)
+      as (n1 & m1 & St1 & Fr1 & MIm1 & Hip1 & V1 & G1).
+    pose proof (code_in_ext _ _ _ _ Hc (fr_ext _ _ Fr1)) as Hc1.
+    pose proof (step_pushacc ob m1 lp _ bc Hc1 Hip1 Hsp) as Ep.
+    set (m2 := pushed (with_ip m1 (lp, len (fwd l) + len cx + 1)) (acc m1)) in *.
+    assert (Xm12 : cext m1 m2) by (apply cext_same; try reflexivity; lia).
+    assert (MIm2 : minv m2).
+    { destruct MIm1 as [HI GI SP]. constructor; [exact HI|exact GI|]. apply pushed_sp_lt. exact SP. }
+    assert (Hc2 : code_in m2 lp bc) by (eapply code_in_regs; [| |exact Hc1]; reflexivity).
+    assert (G2 : genv_rel rho1 m2) by (eapply genv_rel_ext; [exact Xm12|reflexivity|exact G1]).
+    assert (Xs2m2 : cext s2 m2) by (eapply cext_trans; [exact X|]; eapply cext_trans; [apply Fr1|exact Xm12]).
+    assert (Hsp2 : sp m2 = sp m + 1) by (cbn [sp m2 pushed with_scap with_stack with_ip]; rewrite (fr_sp _ _ Fr1); reflexivity).
+    destruct (EX2 _ _ _ HRr m2 lp bc Xs2m2 MIm2 Hc2 Hsr eq_refl G2)
+      as (n3 & m3 & vs & St3 & MIm3 & Hip3 & G3 & Xm23 & Hsp3 & Hbp3 & Hep3 & Hlog3 & Hst3 & Hlen & Hvs & Vvs).
+    exists (n1 + 1 + n3)%nat, m3, (acc m1 :: vs).
+    split; [eapply steps_trans; [eapply steps_trans; [exact St1|apply steps_one; exact Ep]|exact St3]|].
+    split; [exact MIm3|]. split; [rewrite Hip3; f_equal; lens; lia|]. split; [exact G3|].
+    split; [eapply cext_trans; [apply Fr1|]; eapply cext_trans; eassumption|].
+    split; [rewrite Hsp3, Hsp2, len_cons; lia|].
+    split; [rewrite Hbp3; cbn [bp m2 pushed with_scap with_stack with_ip]; apply Fr1|].
+    split; [rewrite Hep3; cbn [ep m2 pushed with_scap with_stack with_ip]; apply Fr1|].
+    split; [rewrite Hlog3; cbn [out_log m2 pushed with_scap with_stack with_ip]; apply Fr1|].
+    assert (Hkeep : forall j, j <= sp m -> sget m3 j = sget m j).
+    { intros j Hj. rewrite Hst3 by lia. unfold m2. rewrite sget_pushed_other.
+      - change (sget (with_ip m1 _) j) with (sget m1 j). apply Fr1. exact Hj.
+      - cbn [sp with_ip]. rewrite (fr_sp _ _ Fr1). lia. }
+    split; [exact Hkeep|]. split; [rewrite !len_cons, Hlen; reflexivity|].
+    split.
+    + intros i v Hi. destruct (N.eq_dec i 0) as [->|Hne].
+      * cbn in Hi. injection Hi as <-. rewrite N.add_0_r. rewrite Hst3 by lia. unfold m2.
+        replace (sp m + 1) with (sp (with_ip m1 (lp, len (fwd l) + len cx + 1)) + 1)
+          by (cbn [sp with_ip]; rewrite (fr_sp _ _ Fr1); reflexivity).
+        apply sget_pushed_top.
+      * replace i with (i - 1 + 1) in Hi by lia. rewrite list_get_cons_S in Hi.
+        apply Hvs in Hi. rewrite Hsp2 in Hi. rewrite <- Hi. f_equal. lia.
+    + constructor; [|exact Vvs]. eapply vrep_ext; [exact V1|]. apply cext_ext. eapply cext_trans; eassumption.
+Qed.
